@@ -271,8 +271,11 @@ def weave(src, vspecs, vacuity=False):
         if spec_lines:
             text, metas = _mk(spec_lines, fnid, 'spec' if body_close is not None else 'assumed', e['props'])
             edits.append(Edit(sig_end, '\n' + text + '\n', 2, [None] + metas + [None]))
+        tm = re.match(r"\s*impl(?:<[^>]*>)?\s+([\w:]+)(?:<[^{]*>)?\s+for\s+", e['block'])
         fn_entries.append({'id': fnid, 'props': e['props'], 'kw': kw, 'close': body_close if body_close else sig_end,
-                           'has_body': body_close is not None, 'where': e['where']})
+                           'has_body': body_close is not None, 'where': e['where'], 'mod': e['mod'], 'name': e['name'],
+                           'impl_of_trait': tm.group(1).split('::')[-1] if tm else None,
+                           'decl_of_trait': block_type_name(e['block']) if re.match(r'\s*(pub\s+)?trait\b', e['block']) else None})
         if body_close is None:
             continue
         if vacuity:
